@@ -119,7 +119,8 @@ def run(spec):
             n0 = len(s.ep.sent)
             ks.armed = True
             try:
-                s.apply(spec["target"])
+                if spec["kill_at"] >= 0:      # kill_at = -1: reference run, the endpoint is stopped right before the event
+                    s.apply(spec["target"])
                 rec["completed"] = not ks.dead
                 rec["raised"] = bool(s.steps) and s.steps[-1]["out"]["exc"] != "none"
             except Killed:
